@@ -26,6 +26,10 @@ def _keep_witness(idx):
     return STATE.rng.random() < 0.15
 
 
+import os as _os
+_DEBUG = bool(_os.environ.get("VERIF_DEBUG_PATHS"))
+
+
 def run_current():
     st = STATE
     with NoTracing():
@@ -48,6 +52,10 @@ def run_current():
             tb = [f for f in tb if "/site-packages/z3/" not in f.filename and "/crosshair/" not in f.filename] or tb
             where = "; ".join(f"{f.filename.rsplit('/', 1)[-1]}:{f.lineno}" for f in tb[-5:])
             detail = f"raised {type(e).__name__}: {str(e)[:200]} @ {where}"
+    if _DEBUG:
+        with NoTracing():
+            import sys as _sys
+            print(f"[path {st.paths}] ok={type(ok).__name__}:{ok if isinstance(ok, bool) else '?'} detail={detail if isinstance(detail, str) else type(detail).__name__}", file=_sys.stderr, flush=True)
     if ok:  # forks when symbolic: one solver query "can the assertion fail on this path?"
         with NoTracing():
             st.reached += 1
@@ -64,5 +72,18 @@ def run_current():
                 detail = detail()
             except Exception as e:  # noqa
                 detail = f"<detail failed: {e!r}>"
-        st.counterexample = {"inputs": snap, "detail": detail if isinstance(detail, str) else repr(detail)}
+            except BaseException as e:  # noqa  (CrossHairInternal: a symbolic value was formatted outside tracing - the verdict stands, the text is lost)
+                if type(e).__name__ != "CrossHairInternal":
+                    raise
+                detail = "<detail not printable: symbolic value>"
+        if type(detail) is not str:
+            # a detail text built eagerly from symbolic values is itself symbolic: render it without touching the solver state
+            try:
+                from crosshair.core import deep_realize
+                detail = str(deep_realize(detail)) if detail is not None else "None"
+            except BaseException as e:  # noqa
+                if not isinstance(e, Exception) and type(e).__name__ != "CrossHairInternal":
+                    raise
+                detail = "<detail not printable: symbolic value>"
+        st.counterexample = {"inputs": snap, "detail": detail}
     return False
